@@ -341,7 +341,7 @@ Section Invariants.
 
   Lemma complete_leaf_json td l j : complete_leaf td l = Some j -> leaf_json td j = true.
   Proof.
-    destruct td as [sc|vals| | |]; destruct l; cbn; try discriminate;
+    destruct td as [sc|vals| | | |]; destruct l; cbn; try discriminate;
       try (destruct sc; cbn; try discriminate).
     all: try (intro H; inversion H; subst; reflexivity).
     - destruct (in_int_range z) eqn:E; [|discriminate]. intro H; inversion H; subst. exact E.
@@ -553,7 +553,7 @@ Section Invariants.
       + (* DLeaf *)
         destruct t as [n|it|t']; [| inversion H; subst; apply raise_ok | eapply HN; [reflexivity | exact H]].
         destruct (lookup_type s n) as [td|] eqn:El; [|inversion H; subst; apply raise_ok].
-        destruct td as [sc|vals|ofs ifs|ifs|ms]; try (inversion H; subst; apply raise_ok).
+        destruct td as [sc|vals|ofs ifs|ifs|ms|idefs ioo]; try (inversion H; subst; apply raise_ok).
         * destruct (complete_leaf (TScalar sc) l) as [j|] eqn:Ecl; inversion H; subst; [|apply raise_ok].
           split; [constructor|]. split; [|constructor].
           eapply sh_leaf; [exact El | eapply complete_leaf_json; exact Ecl].
@@ -563,7 +563,7 @@ Section Invariants.
       + (* DObj *)
         destruct t as [n|it|t']; [| inversion H; subst; apply raise_ok | eapply HN; [reflexivity | exact H]].
         destruct (lookup_type s n) as [td|] eqn:El; [|inversion H; subst; apply raise_ok].
-        destruct td as [sc|vals|ofs ifs|ifs|ms]; try (inversion H; subst; apply raise_ok).
+        destruct td as [sc|vals|ofs ifs|ifs|ms|idefs ioo]; try (inversion H; subst; apply raise_ok).
         * eapply HO; [reflexivity | | exact H]. left. split; [eapply is_object_of_lookup; exact El | reflexivity].
         * destruct (is_object s rtn && possible s n rtn) eqn:Ep; [|inversion H; subst; apply raise_ok].
           apply andb_true_iff in Ep. eapply HO; [reflexivity | | exact H]. right. exact Ep.
@@ -572,7 +572,7 @@ Section Invariants.
       + (* DList *)
         destruct t as [n|it|t']; [| eapply HL; [reflexivity | exact H] | eapply HN; [reflexivity | exact H]].
         destruct (lookup_type s n) as [td|] eqn:El; [|inversion H; subst; apply raise_ok].
-        destruct td as [sc|vals|ofs ifs|ifs|ms]; inversion H; subst; apply raise_ok.
+        destruct td as [sc|vals|ofs ifs|ifs|ms|idefs ioo]; inversion H; subst; apply raise_ok.
       + (* DRaise *)
         inversion H; subst. apply raise_ok.
   Qed.
@@ -786,7 +786,7 @@ Section FuelMono.
         destruct (complete s frags cv f t' sels (DLeaf l)) as [o'|] eqn:Ecp; [|discriminate].
         rewrite (IHc f' Hle' _ _ _ _ Ecp). exact H.
       + destruct t as [n|it|t']; try exact H.
-        * destruct (lookup_type s n) as [[| |ofs ifs|ifs|ms]|]; try exact H.
+        * destruct (lookup_type s n) as [[| |ofs ifs|ifs|ms|idefs ioo]|]; try exact H.
           -- apply IHs; assumption.
           -- destruct (is_object s tn && possible s n tn); [apply IHs; assumption | exact H].
           -- destruct (is_object s tn && possible s n tn); [apply IHs; assumption | exact H].
@@ -854,19 +854,19 @@ Proof.
   - destruct t as [n|it|t']; intro H; try (inversion H; subst; split; reflexivity).
     exfalso. eapply HN. exact H.
   - destruct t as [n|it|t']; intro H; try discriminate; [|exfalso; eapply HN; exact H].
-    exfalso. destruct (lookup_type s n) as [[sc|vals| | |]|]; try discriminate.
+    exfalso. destruct (lookup_type s n) as [[sc|vals| | | |]|]; try discriminate.
     + destruct (complete_leaf (TScalar sc) l) as [j|] eqn:E; [|discriminate].
       inversion H; subst. destruct sc, l; cbn in E; try discriminate;
         try (destruct (in_int_range z)); discriminate.
     + destruct (complete_leaf (TEnum vals) l) as [j|] eqn:E; [|discriminate].
       inversion H; subst. destruct l; cbn in E; try discriminate. destruct (mem s0 vals); discriminate.
   - destruct t as [n|it|t']; intro H; try discriminate; [|exfalso; eapply HN; exact H].
-    exfalso. destruct (lookup_type s n) as [[| |ofs ifs|ifs|ms]|]; try discriminate.
+    exfalso. destruct (lookup_type s n) as [[| |ofs ifs|ifs|ms|idefs ioo]|]; try discriminate.
     + eapply HS. exact H.
     + destruct (is_object s tn && possible s n tn); [eapply HS; exact H | discriminate].
     + destruct (is_object s tn && possible s n tn); [eapply HS; exact H | discriminate].
   - destruct t as [n|it|t']; intro H; [| |exfalso; eapply HN; exact H].
-    + destruct (lookup_type s n) as [[| | | |]|]; discriminate.
+    + destruct (lookup_type s n) as [[| | | | |]|]; discriminate.
     + destruct (complete_items _ items O) as [[[[js|] es0] cs0]|]; discriminate.
 Qed.
 
